@@ -117,6 +117,8 @@ type waitKind uint8
 const (
 	wNone waitKind = iota
 	wLock
+	wRLock // sync.RWMutex read lock
+	wWLock // sync.RWMutex write lock
 	wSend
 	wRecv
 	wOnce
@@ -126,7 +128,7 @@ const (
 	wNever   // blocked for ever (e.g. receive on a channel nobody in the simulation sends on)
 )
 
-var waitNames = [...]string{"run", "lock", "send", "recv", "once", "wgwait", "join", "quiesce", "never"}
+var waitNames = [...]string{"run", "lock", "rlock", "wlock", "send", "recv", "once", "wgwait", "join", "quiesce", "never"}
 
 type task struct {
 	id      int32
@@ -154,6 +156,7 @@ const (
 	oChan
 	oOnce
 	oWG
+	oRWMutex // owner: writer or -1; n: readers
 )
 
 type object struct {
@@ -532,6 +535,15 @@ func (s *Sim) enabled(t *task) bool {
 		return true
 	case wLock:
 		return s.objs[t.obj].owner < 0
+	case wRLock:
+		// Go additionally blocks new readers while a writer waits; every
+		// execution admitted here without that rule is one real Go can also
+		// produce (the reader could have arrived before the writer called
+		// Lock), so the model adds no behaviour. It does not find deadlocks
+		// that are due to writer preference.
+		return s.objs[t.obj].owner < 0
+	case wWLock:
+		return s.objs[t.obj].owner < 0 && s.objs[t.obj].n == 0
 	case wSend:
 		o := &s.objs[t.obj]
 		if o.foreign {
@@ -760,7 +772,7 @@ func (s *Sim) noteDeadlock(t *task) {
 //go:norace
 func (s *Sim) objSeq(k *task) int32 {
 	switch k.wait {
-	case wLock, wSend, wRecv, wOnce, wWG:
+	case wLock, wRLock, wWLock, wSend, wRecv, wOnce, wWG:
 		return s.objs[k.obj].seq
 	case wJoin:
 		return k.obj
@@ -909,7 +921,7 @@ func (s *Sim) releaseOwned(t *task) {
 	}
 	for i := range s.objs {
 		o := &s.objs[i]
-		if o.kind == oMutex && o.owner == t.id {
+		if (o.kind == oMutex || o.kind == oRWMutex) && o.owner == t.id {
 			o.owner = -1
 		}
 		if o.kind == oOnce && o.state == 1 && o.owner == t.id {
